@@ -1,7 +1,7 @@
 // Harness exprsyntax decides C09: template syntax (literals, escapes, quotes,
 // nesting) parses as documented.
 //
-// Five enumerations (see Rule): (A) literal/escape round trip of every string
+// Eight enumerations (see Rule): (A) literal/escape round trip of every string
 // over a small alphabet in two escaping styles; (B) expression trees printed
 // with every whitespace/quoting variant (choice points of the mc explorer)
 // evaluated with recording functions registered in a private KeyBuilder;
@@ -11,12 +11,18 @@
 // printed with the per-pass escaping rule; (D) every raw string over a syntax
 // alphabet, C and D judged by an independent
 // three-valued reading of the statement (value / must be a compile error /
-// not settled by the statement). Nothing may panic.
+// not settled by the statement); (L) templates / arguments / calls of many
+// stages; (I) integer-like lone tokens around the boundaries of the integer
+// types, with a context that logs the look-ups (inttok.go); (H) every short
+// operation sequence Compile/Func/Funcs on ONE KeyBuilder, each Compile
+// compared with the reference and with a fresh builder holding the same
+// functions (hist.go). Nothing may panic.
 package main
 
 import (
 	"encoding/json"
 	"fmt"
+	"strconv"
 	"strings"
 	"time"
 
@@ -108,12 +114,16 @@ func panicSig(template string, r runResult) string {
 
 // Case is the replayable description of one check.
 type Case struct {
-	Kind     string `json:"kind"` // expect | text
-	Template string `json:"template"`
-	Want     string `json:"want,omitempty"`
-	Sig      string `json:"sig,omitempty"`    // expect: signature of a mismatch
-	Origin   string `json:"origin,omitempty"` // text: mutation | raw
-	Note     string `json:"note,omitempty"`
+	Kind     string   `json:"kind"` // expect | text | inttoken | history
+	Template string   `json:"template"`
+	Want     string   `json:"want,omitempty"`
+	Sig      string   `json:"sig,omitempty"`    // expect: signature of a mismatch
+	Origin   string   `json:"origin,omitempty"` // text: mutation | raw
+	Note     string   `json:"note,omitempty"`
+	Token    string   `json:"token,omitempty"` // inttoken: the token and the name of the context around it
+	Ctx      string   `json:"ctx,omitempty"`
+	Ops      []string `json:"ops,omitempty"` // history: operation names, applied in order to one builder
+	Optimize bool     `json:"optimize,omitempty"`
 }
 
 type checker struct{ w *runner.W }
@@ -463,6 +473,106 @@ func worker(w *runner.W) {
 		w.Max("max_long_segments", int64(maxN))
 	}
 
+	// ---- I: integer-like lone tokens around the integer boundaries (S2)
+	if part == "all" || part == "integers" {
+		stop := false
+		var nTokens int64
+		intTokens(w.Quick(), func(t intToken, origin string) bool {
+			nTokens++
+			if !own() {
+				return true
+			}
+			if w.Expired() {
+				stop = true
+				return false
+			}
+			for _, ctx := range intContexts {
+				ctx := ctx
+				w.SetCase(func() any { return Case{Kind: "inttoken", Template: ctx.template(t), Token: t.text, Ctx: ctx.name} })
+				ok, observed := c.intToken(t, ctx, origin)
+				w.Eval(ok)
+				w.Add("integer_token_templates", 1)
+				w.Add("integer_token_read_as_"+strings.ReplaceAll(observed, "-", "_"), 1)
+				w.Outcome("int", t.class, ctx.name, observed, fmt.Sprint(t.must), fmt.Sprint(len(strings.TrimLeft(t.text, "+-"))))
+				if w.WantSample() && ctx.name == "argument-with-text" && !t.fits && t.val.Sign() > 0 {
+					w.Sample(map[string]string{"token": t.text, "about": origin, "template": ctx.template(t), "read_as": observed})
+				}
+			}
+			w.Add("integer_tokens", 1)
+			w.Max("max_integer_token_digits", int64(len(strings.TrimLeft(t.text, "+-"))))
+			return true
+		})
+		if stop {
+			return
+		}
+	}
+
+	// ---- H: histories on one KeyBuilder (S2 + S3)
+	if part == "all" || part == "history" {
+		ops := histOps()
+		depth := histDepth(w.Quick())
+		idx := make([]int, depth)
+		seq := make([]histOp, depth)
+		st := &histStats{tables: map[string]bool{}}
+		for {
+			if own() {
+				if w.Expired() {
+					return
+				}
+				for i, k := range idx {
+					seq[i] = ops[k]
+				}
+				w.SetCase(func() any {
+					names := make([]string, depth)
+					for i, o := range seq {
+						names[i] = o.name
+					}
+					return Case{Kind: "history", Ops: names}
+				})
+				before := st.compilesAfterRegistration
+				ok := true
+				for _, opt := range []bool{true, false} {
+					ok = c.history(seq, opt, st) && ok
+				}
+				w.Eval(ok && st.compilesAfterRegistration > before)
+				w.Add("history_sequences", 1)
+				// states: every distinct history (operation prefix) is one state of the
+				// builder; a prefix is counted by the sequence that extends it with the
+				// first operation only, so the shards' counts add up to the number of
+				// distinct prefixes
+				for l := depth; l >= 0; l-- {
+					w.Add("states", 1)
+					if l > 0 && idx[l-1] != 0 {
+						break
+					}
+				}
+				if w.WantSample() && ok && idx[0] == 0 && idx[1] == 6 && idx[2] == 0 && idx[depth-1] == 2 {
+					names := make([]string, depth)
+					for i, o := range seq {
+						names[i] = o.name
+					}
+					w.Sample(map[string]any{"history": names})
+				}
+			}
+			i := depth - 1
+			for ; i >= 0; i-- {
+				idx[i]++
+				if idx[i] < len(ops) {
+					break
+				}
+				idx[i] = 0
+			}
+			if i < 0 {
+				break
+			}
+		}
+		w.Add("transitions", st.transitions)
+		w.Add("history_compiles_checked", st.compiles)
+		w.Add("history_compiles_after_a_registration", st.compilesAfterRegistration)
+		w.Max("history_depth", int64(depth))
+		w.Max("history_function_tables", int64(len(st.tables)))
+	}
+
 	// ---- D: raw strings over the syntax alphabet
 	rawCase := func(s string) bool {
 		if !own() {
@@ -507,6 +617,29 @@ func replay(w *runner.W, raw json.RawMessage) {
 		c.expect(cs.Template, cs.Want, sig, cs.Note)
 	case "text":
 		c.judged(cs.Template, cs.Origin)
+	case "inttoken":
+		ctx, ok := intContextByName(cs.Ctx)
+		if !ok {
+			panic("unknown integer-token context " + cs.Ctx)
+		}
+		c.intToken(newIntToken(cs.Token), ctx, cs.Note)
+	case "history":
+		byName := map[string]histOp{}
+		for _, o := range histOps() {
+			byName[o.name] = o
+		}
+		seq := make([]histOp, len(cs.Ops))
+		for i, n := range cs.Ops {
+			o, ok := byName[n]
+			if !ok {
+				panic("unknown history operation " + n)
+			}
+			seq[i] = o
+		}
+		// a violation names the optimisation setting it was seen with; a hang/crash case does not
+		if c.history(seq, cs.Optimize, nil) && !cs.Optimize {
+			c.history(seq, true, nil)
+		}
 	default:
 		panic("unknown case kind " + cs.Kind)
 	}
@@ -527,6 +660,7 @@ func main() {
 		Level:      "exploration",
 		Rule: func(prop, tier string) string {
 			tp := params(tier != "thorough")
+			ip := intParamsOf(tier != "thorough")
 			d1 := "all combinations"
 			if tp.d1Bound3 >= 0 {
 				d1 = fmt.Sprintf("at most %d non-default choices", tp.d1Bound3)
@@ -539,14 +673,18 @@ func main() {
 			if tp.fullDepth2 {
 				full = fmt.Sprintf("at most %d deviations", tp.fullBound)
 			}
-			return fmt.Sprintf("(A) every string with 0..%d symbols over {%s} and 1..%d symbols over {%s}, rendered with minimal escapes (only \\ { }) and with every character escaped, alone and as `E{0}E{k}`, must evaluate to the string; (B) expression trees f(args)/g(args) with 1..3 arguments over leaves {a, \"b c\", \"\", {0}, {1}, {k}, p{1}} and, below f, calls g(1..2 leaves); printed with every combination of argument separator {%s}, optional quoting of words, lookups and quote-free calls, leading/trailing blank inside the braces, and literal neighbours (`xTy {1}{0}`): all combinations for depth-1 trees (three arguments: %s) and depth-2 trees with one argument, at most %d non-default choices for depth-2 trees with 2 arguments and one inner call, at most %d for 2 arguments/two inner calls, at most %d for 3 arguments/one inner call, 3 arguments with more inner calls: %s; evaluated with recording functions in a private KeyBuilder (optimisation on and off) against the value of the tree; (C) every single-character deletion and every insertion of one of {%s} at every position of the plain print of the depth-1 trees (prints with at most %d non-default choices) and, in the thorough tier, of the depth-2 trees with at most 2 arguments, judged by the reference reading; (E) trees whose leaves need escaping inside call arguments or are unquoted non-ASCII words: leaves {c\\d, C:\\\\temp\\new, o{p}, l<LF>m, <TAB>z<CR>, q\"r, 's t', \\\"\\{\\ \\n, voilà, Ångström, Škoda, 😅🤠, é, {voilà}, {Å}, {Š😅}, {1}, w\\{0}, {k}<LF>{{à}} (UTF-8 encodings containing the bytes 0x85/0xA0, a 4-byte rune); trees: each lookup alone, f(x), f(g(x)), f(g(f(x))), f(x,y), f(g(x),y), f(y,g(x)), f(g(x,y)) for all leaves x,y; printed by applying, for every enclosing pass (template scan, argument split, argument compilation: 2d+1 passes at call depth d), the inverse of that pass to all text that is not syntax of that level; every combination of quoted/unquoted per argument, blank/tab separators, control characters raw or as \\n \\t \\r, and literal neighbours `\\\\T\\{{0}` (depth-2 trees with two leaves: %s); must evaluate to the tree value; (D) every string with 0..%d symbols over {%s} and the strings with a tab among 1..%d symbols over {%s}, judged by the reference reading (value / must be a compile error / not settled); (L) templates of 1..%d segments laid out by 10 cycles of {literal, constant call, group, key, call on a group}, as the template itself, as one quoted argument of a call, and as that many separate arguments of one call, must evaluate to the concatenation / the call the segments dictate; no panic anywhere. non-trivial = (A) non-empty string evaluated, (B,E) compiled and compared, (C,D) the reference reading settles the template (value or must-error) [D: and it contains a statement]",
-				tp.litLen, show(tp.litAlphabet), tp.litLen2, show(tp.litAlphabet2), show(tp.seps), d1, tp.b21, tp.b22, tp.b31, full, show(tp.mutIns), tp.mutBound, eb, tp.rawLen, show(tp.rawAlphabet), tp.rawLen2, show(tp.rawAlphabet2), map[bool]int{true: 100, false: 300}[tier != "thorough"])
+			return fmt.Sprintf("(A) every string with 0..%d symbols over {%s} and 1..%d symbols over {%s}, rendered with minimal escapes (only \\ { }) and with every character escaped, alone and as `E{0}E{k}`, must evaluate to the string; (B) expression trees f(args)/g(args) with 1..3 arguments over leaves {a, \"b c\", \"\", {0}, {1}, {k}, p{1}} and, below f, calls g(1..2 leaves); printed with every combination of argument separator {%s}, optional quoting of words, lookups and quote-free calls, leading/trailing blank inside the braces, and literal neighbours (`xTy {1}{0}`): all combinations for depth-1 trees (three arguments: %s) and depth-2 trees with one argument, at most %d non-default choices for depth-2 trees with 2 arguments and one inner call, at most %d for 2 arguments/two inner calls, at most %d for 3 arguments/one inner call, 3 arguments with more inner calls: %s; evaluated with recording functions in a private KeyBuilder (optimisation on and off) against the value of the tree; (C) every single-character deletion and every insertion of one of {%s} at every position of the plain print of the depth-1 trees (prints with at most %d non-default choices) and, in the thorough tier, of the depth-2 trees with at most 2 arguments, judged by the reference reading; (E) trees whose leaves need escaping inside call arguments or are unquoted non-ASCII words: leaves {c\\d, C:\\\\temp\\new, o{p}, l<LF>m, <TAB>z<CR>, q\"r, 's t', \\\"\\{\\ \\n, voilà, Ångström, Škoda, 😅🤠, é, {voilà}, {Å}, {Š😅}, {1}, w\\{0}, {k}<LF>{{à}} (UTF-8 encodings containing the bytes 0x85/0xA0, a 4-byte rune); trees: each lookup alone, f(x), f(g(x)), f(g(f(x))), f(x,y), f(g(x),y), f(y,g(x)), f(g(x,y)) for all leaves x,y; printed by applying, for every enclosing pass (template scan, argument split, argument compilation: 2d+1 passes at call depth d), the inverse of that pass to all text that is not syntax of that level; every combination of quoted/unquoted per argument, blank/tab separators, control characters raw or as \\n \\t \\r, and literal neighbours `\\\\T\\{{0}` (depth-2 trees with two leaves: %s); must evaluate to the tree value; (D) every string with 0..%d symbols over {%s} and the strings with a tab among 1..%d symbols over {%s}, judged by the reference reading (value / must be a compile error / not settled); (L) templates of 1..%d segments laid out by 10 cycles of {literal, constant call, group, key, call on a group}, as the template itself, as one quoted argument of a call, and as that many separate arguments of one call, must evaluate to the concatenation / the call the segments dictate; (I) integer-like lone tokens: every value b+o for b in {%s}, o in -%d..+%d (-%d..+%d for the boundaries marked *, whose upper neighbours a wrapped-around or truncated index would alias to a small group), printed with sign {none,-,+} and with %s leading zeros and zero-padded to %s digits, each in the templates {%s} (T the token); the context logs every look-up: a template without its own braces around T keeps T as text, otherwise every look-up performed must be the group whose number is exactly the token's value or the key named exactly the token's text (for a value no int can hold: the key, or nothing at all with an empty result), the result must be the one that reading gives, tokens -?[0-9]{1,9} must be the group look-up, and Compile must not report an error; (H) histories on ONE KeyBuilder that starts with only g registered: every sequence of exactly %d operations (all shorter ones are their prefixes) over {%s}, with optimisation on and off; after every Compile: a function of the template is unregistered at that moment <=> compile error, otherwise the value is the tree value with the currently registered versions (recording functions f1/f2/h1/h2 name their version), and error presence, error text and BuildKey output equal those of a FRESH KeyBuilder given the same function table; states = distinct operation prefixes, transitions = operations applied to the builder under test; no panic anywhere. non-trivial = (A) non-empty string evaluated, (B,E,I) compiled and compared, (C,D) the reference reading settles the template (value or must-error) [D: and it contains a statement], (H) the sequence has a Compile after a registration and every check passed",
+				tp.litLen, show(tp.litAlphabet), tp.litLen2, show(tp.litAlphabet2), show(tp.seps), d1, tp.b21, tp.b22, tp.b31, full, show(tp.mutIns), tp.mutBound, eb, tp.rawLen, show(tp.rawAlphabet), tp.rawLen2, show(tp.rawAlphabet2), map[bool]int{true: 100, false: 300}[tier != "thorough"],
+				intRuleBoundaries(tier != "thorough"), ip.around, ip.around, ip.around, ip.smallK, showInts(ip.padN), showInts(ip.padTo), intRuleContexts(),
+				histDepth(tier != "thorough"), histRuleOps())
 		},
 		Assumptions: func(string) []string {
 			return []string{
 				"recording functions f and g accept any number of arguments and return name(arg|arg|...); the context returns <mN> for group N and <k:name> for key name",
-				"the statement does not settle: a backslash inside a statement or as the last character, a closing brace outside a statement, a quote in the middle of a word or text directly after a closing quote, an unterminated quote, quoted text with unbalanced braces, a statement whose only argument is quoted or braced, a quoted or braced function name, +N or more than 9 digits as an integer; only 'no panic' is demanded for templates containing these",
+				"the statement does not settle: a backslash inside a statement or as the last character, a closing brace outside a statement, a quote in the middle of a word or text directly after a closing quote, an unterminated quote, quoted text with unbalanced braces, a statement whose only argument is quoted or braced, a quoted or braced function name, +N or more than 9 digits as an integer (parts C, D: only 'no panic'; part I: the look-up must still be the group of exactly that value or the key of exactly that text); only 'no panic' is demanded for templates containing these",
 				"inside statements an escape is consumed once per pass that reads the text (scan of the enclosing template, split into arguments, compilation of the argument as a template; DESIGN §6 'an escape is consumed once per nesting level'); part E prints with the inverse of exactly these passes and demands the tree value",
+				fmt.Sprintf("part I: the recording context answers <mN> for every int N and logs each look-up; int is %d bits in this build; a value outside int cannot be passed to GetMatch, so for it 'group of exactly that value' can only show as no look-up and an empty result", strconv.IntSize),
+				"part H: Func/Funcs may be called between two Compile calls of one KeyBuilder (funcfile.LoadDefinitions alternates Compile and Func on one builder) and a Compile means the template with the functions registered at that moment; the comparison with a fresh builder includes the text of the compile error and the output of the partially usable builder Compile returns next to an error",
 				"parts B-D: generated quoted leaves contain blanks but none of { } \" \\; a call is printed inside quotes only when it contains no quotes (quotes do not nest)",
 			}
 		},
